@@ -1,4 +1,6 @@
 import YncaVerif.Lemmas.Server
+import YncaVerif.Lemmas.ServerX
+import YncaVerif.Gen.ServerTables
 /-! # C18 — the test server replays what the recorded receiver said (L6 model of `ynca/server.py`) -/
 namespace Ynca.C18
 open Ynca.Srv
@@ -74,5 +76,18 @@ theorem C18_get_only_stored (T : Tables) (st : Store) (s f : String) :
       (∃ g, l = valueLine s g (getData st s g) ∧ isError (getData st s g) = false) ∨
       l = valueLine s "STRAIGHT" "On" :=
   get_only_stored T st s f
+
+/-- **multi-name queries answer with stored members only, or with one error line — never both** (`INPNAME`, `SCENENAME`): the
+    reply is exactly `[@UNDEFINED]`, or it is non-empty and contains no error line -/
+theorem C18_names_members_xor_error (T : Tables) (st : Store) (s : String)
+    (h1 : multiTable T.multi "INPNAME" = none) (h2 : multiTable T.multi "SCENENAME" = none) :
+    MembersXorError (handleGet T.multi st "SYS" "INPNAME") ∧ MembersXorError (handleGet T.multi st s "SCENENAME") := by
+  constructor
+  · simp only [handleGet, h1]; exact handleGet1_inpname st false 2
+  · simp only [handleGet, h2]; exact handleGet1_scenename st s false 2
+
+/-- the hypotheses hold for the tables of the source (regenerated on every run) -/
+theorem C18_name_groups_not_in_multi_table :
+    multiTable Gen.multiTable "INPNAME" = none ∧ multiTable Gen.multiTable "SCENENAME" = none := by decide
 
 end Ynca.C18
